@@ -140,7 +140,7 @@ var corruptKinds = []string{
 }
 
 func TestCorruption(t *testing.T) {
-	ev.Checks(6000, 10000)
+	ev.Checks(5000, 8000)
 
 	rapid.Check(t, func(rt *rapid.T) {
 		dir, err := os.MkdirTemp("", "c09-corrupt-")
@@ -212,7 +212,11 @@ func TestCorruption(t *testing.T) {
 			lay.payload = nonceLen
 		}
 
-		compressibleMultiBlock := format == "v1" && sp.Comp != compRand && lay.nblocks() >= 2
+		// region of the listed finding C09-BLOCKSEQ: edits in units of whole cipher blocks on a file of >= 2 cipher blocks
+		// (any payload: which splices happen to parse depends only on the LZ4 framing at the cut), and truncation at a
+		// cipher block boundary unless the payload is incompressible (raw LZ4 blocks start at stream offset 7+65540*i,
+		// which is odd, so no block starts at or 4 bytes before a multiple of 262144 and the cut ends inside a block).
+		multiBlock := format == "v1" && lay.nblocks() >= 2
 
 		// ---- mutate
 		after := append([]byte(nil), before...)
@@ -235,7 +239,7 @@ func TestCorruption(t *testing.T) {
 			return i, j, true
 		}
 
-		if (kind == "swap" || kind == "dropblock" || kind == "dupblock") && compressibleMultiBlock && kf.Listed(kfBlockSeq) {
+		if (kind == "swap" || kind == "dropblock" || kind == "dupblock") && multiBlock && kf.Listed(kfBlockSeq) {
 			ev.Excluded(1)
 
 			kind, mut.kind = "flip", "flip"
@@ -251,7 +255,7 @@ func TestCorruption(t *testing.T) {
 				off += rapid.SampledFrom([]int{-1, 1}).Draw(rt, "steer27")
 			}
 
-			if compressibleMultiBlock && off > lay.payload && off < lay.size && (off-lay.payload)%cipherBlock == 0 &&
+			if multiBlock && sp.Comp != compRand && off > lay.payload && off < lay.size && (off-lay.payload)%cipherBlock == 0 &&
 				kf.Listed(kfBlockSeq) {
 				ev.Excluded(1)
 
